@@ -68,7 +68,23 @@ class Effective:
     snapshot_error_at: Optional[int] = None
 
 
+_EFF_CACHE = {}  # type: dict
+
+
 def effective(prog: Prog, upto: Optional[int] = None) -> Effective:
+    """Effective contracts (cached; ``prog`` is always concrete, so this is computed natively)."""
+    from vfw.hlib import untraced
+
+    with untraced():
+        key = (prog, upto)
+        hit = _EFF_CACHE.get(key)
+        if hit is None:
+            hit = _effective(prog, upto)
+            _EFF_CACHE[key] = hit
+    return hit
+
+
+def _effective(prog: Prog, upto: Optional[int] = None) -> Effective:
     """Effective contracts of the member for an instance of level ``upto`` (default: the last)."""
     eff = Effective()
     last = len(prog.levels) - 1 if upto is None else upto
